@@ -164,8 +164,8 @@ Proof.
   match goal with |- context [let '(p1, out1) := ?X in _] => destruct X as [p1 out1] eqn:E1 end.
   assert (Hp1 : rp_fr p1 = rp_fr p /\ Forall data_dg out1).
   { destruct (next_unsent p chs).
-    - replace p1 with (fst (unsent_rel (S (length chs)) cf now chs p [])) by (rewrite E1; reflexivity).
-      replace out1 with (snd (unsent_rel (S (length chs)) cf now chs p [])) by (rewrite E1; reflexivity).
+    - replace p1 with (fst (unsent_rel (S (2 * length chs)) cf now chs p [])) by (rewrite E1; reflexivity).
+      replace out1 with (snd (unsent_rel (S (2 * length chs)) cf now chs p [])) by (rewrite E1; reflexivity).
       split; [apply unsent_rel_fr|]. apply unsent_rel_data with (fr := rp_fr p); [assumption|reflexivity|constructor].
     - destruct (negb (unacked p (zmax_list (sns chs)))); [inversion E1; subst; split; [reflexivity|constructor]|].
       destruct (time_for_hb p now); unfold gen_hb in E1; inversion E1; subst; (split; [reflexivity|]); [|constructor].
@@ -173,20 +173,21 @@ Proof.
   destruct Hp1 as [Hfr Ho]. apply req_loop_data with (fr := rp_fr p); assumption.
 Qed.
 
-Lemma write_be_data fuel cf chs : (forall c, In c chs -> P c) ->
-  forall p acc, Forall data_dg acc -> Forall data_dg (snd (write_be_loop fuel cf chs p acc)).
+Lemma write_be_data fr fuel cf chs : (forall c, In c chs -> fr < c_sn c -> P c) ->
+  forall p acc, rp_fr p = fr -> Forall data_dg acc -> Forall data_dg (snd (write_be_loop fuel cf chs p acc)).
 Proof.
-  intros Hi. induction fuel as [|f IH]; intros p acc Ha; cbn; [assumption|].
+  intros Hi. induction fuel as [|f IH]; intros p acc Hfr Ha; cbn; [assumption|].
   destruct (next_unsent p chs) as [n|]; [|assumption].
   destruct (rp_hs p + 1 <? n).
-  - apply IH. apply Forall_app; split; [assumption|].
+  - apply IH; [exact Hfr|]. apply Forall_app; split; [assumption|].
     constructor; [|constructor]. unfold data_dg; cbn. repeat constructor.
-  - destruct (find_change n chs) as [c|] eqn:El.
-    + apply find_change_in in El. destruct El as [El _]. apply Hi in El.
-      destruct (1 <? nfrags cf c); apply IH; apply Forall_app; split; try assumption.
+  - destruct (lookup_relevant p n chs) as [c|] eqn:El.
+    + apply lookup_relevant_in in El. destruct El as (Hin & Hsn & Hlt).
+      assert (Pc : P c) by (apply Hi; [assumption|lia]).
+      destruct (1 <? nfrags cf c); apply IH; try exact Hfr; apply Forall_app; split; try assumption.
       * apply data_frag_dgrams; [assumption| constructor].
-      * constructor; [|constructor]. unfold data_dg; cbn. repeat constructor. exact El.
-    + apply IH. apply Forall_app; split; [assumption|].
+      * constructor; [|constructor]. unfold data_dg; cbn. repeat constructor. exact Pc.
+    + apply IH; [exact Hfr|]. apply Forall_app; split; [assumption|].
       constructor; [|constructor]. unfold data_dg; cbn. repeat constructor.
 Qed.
 
@@ -311,7 +312,7 @@ Qed.
 
 Lemma on_gap_WOk w a b pres : WOk w pres -> WOk (on_gap w a b) pres.
 Proof.
-  intros Hw. unfold on_gap. destruct ((a <? b) && (wp_hr w <? b - 1)) eqn:E; [|assumption].
+  intros Hw. unfold on_gap. destruct ((a <? b) && (a <=? avail_max w + 1) && (wp_hr w <? b - 1)) eqn:E; [|assumption].
   apply andb_prop in E. destruct E as [_ E]. apply Z.ltb_lt in E.
   eapply WOk_keep; [exact Hw| cbn; lia | cbn; auto].
 Qed.
@@ -362,7 +363,8 @@ Proof.
     unfold RInv. destruct (rd_present_proj r w1 oc) as [-> ->]. eapply on_frag_WOk; eassumption.
   - inversion E; subst. split; [|constructor].
     unfold RInv, rd_present; cbn. apply on_gap_WOk. assumption.
-  - destruct (on_hb cf w f l c) as [w1 o] eqn:Eh.
+  - destruct (f <=? 0); [inversion E; subst; split; [unfold RInv; rewrite Ew; assumption|constructor]|].
+    destruct (on_hb cf w f l c) as [w1 o] eqn:Eh.
     destruct (on_hb_WOk cf w f l c (rd_pres r) w1 o Hr Eh) as [Hw Ho].
     destruct (hist_received (rd_wp (rd_present r w1 None))); inversion E; subst; (split; [|assumption]);
       unfold RInv, rd_present; cbn; assumption.
@@ -408,7 +410,7 @@ Lemma write_message_auth log cf now chs p : incl chs log ->
 Proof.
   intros Hi. unfold write_message. destruct (rp_rel p).
   - apply write_rel_data. intros c Hc _. apply Hi. assumption.
-  - apply write_be_data; [|constructor]. intros c Hc. apply Hi. assumption.
+  - apply write_be_data with (fr := rp_fr p); [|reflexivity|constructor]. intros c Hc _. apply Hi. assumption.
 Qed.
 Lemma on_acknack_auth log cf now chs p base set count : incl chs log ->
   Forall (auth_dg log) (snd (fst (on_acknack cf now chs p base set count))).
@@ -667,7 +669,7 @@ Proof.
   match goal with |- context [let '(p1, out1) := ?X in _] => destruct X as [p1 out1] eqn:E1 end.
   rewrite req_loop_static.
   destruct (next_unsent p chs).
-  - replace p1 with (fst (unsent_rel (S (length chs)) cf now chs p [])) by (rewrite E1; reflexivity).
+  - replace p1 with (fst (unsent_rel (S (2 * length chs)) cf now chs p [])) by (rewrite E1; reflexivity).
     apply unsent_rel_static.
   - destruct (negb _); [inversion E1; reflexivity|].
     destruct (time_for_hb p now); unfold gen_hb in E1; inversion E1; reflexivity.
@@ -678,7 +680,7 @@ Proof.
   induction fuel as [|f IH]; intros p acc; cbn; [reflexivity|].
   destruct (next_unsent p chs) as [n|]; [|reflexivity].
   destruct (rp_hs p + 1 <? n); [rewrite IH; reflexivity|].
-  destruct (find_change n chs) as [c|]; [|rewrite IH; reflexivity].
+  destruct (lookup_relevant p n chs) as [c|]; [|rewrite IH; reflexivity].
   destruct (1 <? nfrags cf c); rewrite IH; reflexivity.
 Qed.
 Lemma write_message_static cf now chs p : rp_static (fst (write_message cf now chs p)) = rp_static p.
@@ -904,15 +906,15 @@ Qed.
 Lemma init_NInv : NInv init.
 Proof. intros _. cbn. tauto. Qed.
 
-(* ------------------------------------------------------------------ VOLATILE reliable readers *)
-(* B = the writer's last sequence number at match time.  For a RELIABLE reader proxy whose first
-   relevant sample is <= B (VOLATILE: first relevant = highest held sequence number), nothing with a
-   sequence number <= B is ever in flight towards the reader, buffered or presented. *)
+(* ------------------------------------------------------------------ VOLATILE readers *)
+(* B = the writer's last sequence number at match time.  For a reader proxy (RELIABLE or BEST_EFFORT)
+   whose first relevant sample is <= B (VOLATILE: first relevant = highest held sequence number), nothing
+   with a sequence number <= B is ever in flight towards the reader, buffered or presented. *)
 Definition above (B : Z) (c : change) : Prop := B < c_sn c.
 
 Record VInv (B : Z) (s : state) : Prop := mkVInv {
   v_rp : match s_rp s with
-         | Some p => rp_rel p = true /\ (forall c, In c (s_changes s) -> rp_fr p < c_sn c -> B < c_sn c)
+         | Some p => forall c, In c (s_changes s) -> rp_fr p < c_sn c -> B < c_sn c
          | None => True     (* the reader was deleted: nothing is sent any more *)
          end;
   v_rd_some : s_rd s <> None;
@@ -930,7 +932,7 @@ Qed.
 Lemma VInv_set_rp B s p q : VInv B s -> s_rp s = Some p -> rp_static q = rp_static p -> VInv B (set_rp s (Some q)).
 Proof.
   intros [H1 H0 H2 H3 H4] Hp Hs. rewrite Hp in H1. apply static_fr in Hs. destruct Hs as (A & B' & _).
-  constructor; cbn; try assumption. rewrite A, B'. exact H1.
+  constructor; cbn; try assumption. rewrite A. exact H1.
 Qed.
 Lemma VInv_set_waits B s w : VInv B s -> VInv B (set_waits s w).
 Proof. intros [H1 H0 H2 H3 H4]. constructor; cbn; assumption. Qed.
@@ -942,10 +944,11 @@ Proof. intros [H1 H0 H2 H3 H4] Hr. constructor; cbn; try assumption. discriminat
 Lemma poke_VInv B cf s : VInv B s -> VInv B (poke cf s).
 Proof.
   intros H. unfold poke. pose proof (v_rp B s H) as Hp. destruct (s_rp s) as [p|] eqn:Ep; [|assumption].
-  destruct Hp as [Hrel Hch].
+  rename Hp into Hch.
   pose proof (write_message_static cf (s_now s) (s_changes s) p) as Hs.
   assert (Ha : Forall (data_dg (above B) (Z.lt B)) (snd (write_message cf (s_now s) (s_changes s) p))).
-  { unfold write_message. rewrite Hrel. apply write_rel_data. exact Hch. }
+  { unfold write_message. destruct (rp_rel p); [apply write_rel_data; exact Hch|].
+    apply write_be_data with (fr := rp_fr p); [exact Hch|reflexivity|constructor]. }
   destruct (write_message cf (s_now s) (s_changes s) p) as [p1 out]. cbn in Ha, Hs.
   apply VInv_send; [eapply VInv_set_rp; eassumption|assumption].
 Qed.
@@ -953,7 +956,7 @@ Qed.
 Lemma deliver_sub_W_VInv B cf s m : VInv B s -> data_sub (above B) (Z.lt B) m -> VInv B (deliver_sub_W cf s m).
 Proof.
   intros H Hm. unfold deliver_sub_W. pose proof (v_rp B s H) as Hp.
-  destruct (s_rp s) as [p|] eqn:Ep; [|assumption]. destruct Hp as [Hrel Hch].
+  destruct (s_rp s) as [p|] eqn:Ep; [|assumption]. rename Hp into Hch.
   destruct m; try assumption.
   - pose proof (on_acknack_data (above B) (Z.lt B) cf (s_now s) (s_changes s) p base set count Hch) as Ha.
     pose proof (on_acknack_static cf (s_now s) (s_changes s) p base set count) as Hs.
@@ -1016,7 +1019,7 @@ Proof.
   { match type of E with (match ?o with _ => _ end) = _ => destruct o end; inversion E; subst; [|apply incl_refl].
     intros x Hx. apply filter_In in Hx. tauto. }
   destruct H as [H1 H0 H2 H3 H4]. cbn [fst]. constructor; cbn; try assumption; [|lia].
-  destruct (s_rp s) as [p|]; [|exact I]. destruct H1 as [Hrel Hch]. split; [assumption|].
+  destruct (s_rp s) as [p|]; [|exact I]. rename H1 into Hch.
   intros c Hin Hlt. apply in_app_or in Hin. destruct Hin as [Hin|[<-|[]]]; [apply Hch; auto|cbn; lia].
 Qed.
 
@@ -1026,7 +1029,7 @@ Proof.
   - (* AWrite *) pose proof (do_write_VInv B cf s key len sum H) as Hw.
     destruct (do_write cf s key len sum) as [s1 code]. exact Hw.
   - (* ARemove *) destruct H as [H1 H0 H2 H3 H4]. constructor; cbn; try assumption.
-    destruct (s_rp s) as [p|]; [|exact I]. destruct H1 as [Hrel Hch]. split; [assumption|].
+    destruct (s_rp s) as [p|]; [|exact I]. rename H1 into Hch.
     intros c Hin. apply filter_In in Hin. apply Hch. tauto.
   - (* ATick *) destruct H as [H1 H0 H2 H3 H4]. constructor; cbn; assumption.
   - (* ADeliver *) destruct (nth_error (s_net s) i) as [d|] eqn:E; [|assumption]. cbn [fst].
@@ -1084,16 +1087,16 @@ Qed.
 Lemma run_cons cf a l s : run cf s (a :: l) = run cf (fst (step cf s a)) l.
 Proof. unfold run. rewrite !run_out_fst. reflexivity. Qed.
 
-(* the state right after an effective match of a RELIABLE VOLATILE reader satisfies VInv with B = s_last *)
-Lemma match_VInv cf s : NInv s -> s_rd s = None -> s_rp s = None -> s_rdead s = false -> w_rel cf = true ->
-  VInv (s_last s) (fst (step cf s (AMatch true false))).
+(* the state right after an effective match of a VOLATILE reader satisfies VInv with B = s_last *)
+Lemma match_VInv cf s rel : NInv s -> s_rd s = None -> s_rp s = None -> s_rdead s = false ->
+  rxo_ok cf rel false = true ->
+  VInv (s_last s) (fst (step cf s (AMatch rel false))).
 Proof.
-  intros HN Hrd Hrp Hdead Hrel. unfold step. cbn [act]. rewrite Hrd, Hrp, Hdead. cbn [orb].
+  intros HN Hrd Hrp Hdead Hrxo. unfold step. cbn [act]. rewrite Hrd, Hrp, Hdead, Hrxo. cbn [orb].
   destruct (HN Hrd) as [Hnet _].
-  unfold rxo_ok. rewrite Hrel. cbn [implb andb].
   cbn [fst]. apply poke_VInv. apply poke_VInv.
   constructor; cbn.
-  - split; [reflexivity|]. intros c Hin Hlt. apply in_le_last_sn in Hin. lia.
+  - intros c Hin Hlt. apply in_le_last_sn in Hin. lia.
   - discriminate.
   - lia.
   - rewrite Hnet. constructor.
@@ -1108,11 +1111,12 @@ Proof.
   - rewrite Hr. constructor.
 Qed.
 
-(* A RELIABLE VOLATILE reader never presents a sample that was written before it was matched *)
-Theorem volatile_no_history_reliable cf before after :
+(* A VOLATILE reader, RELIABLE or BEST_EFFORT, never presents a sample that was written before it was
+   matched - whatever is lost, duplicated, reordered, removed or deleted afterwards *)
+Theorem volatile_no_history cf rel before after :
   let s1 := run cf init before in
-  s_rd s1 = None -> s_rp s1 = None -> s_rdead s1 = false -> w_rel cf = true ->
-  let s := run cf init (before ++ AMatch true false :: after) in
+  s_rd s1 = None -> s_rp s1 = None -> s_rdead s1 = false -> rxo_ok cf rel false = true ->
+  let s := run cf init (before ++ AMatch rel false :: after) in
   forall c, In c (s_log s1) -> ~ In c (presented s).
 Proof.
   intros s1 Hrd Hrp Hdead Hrel s c Hc Hin. subst s. rewrite run_app in Hin. fold s1 in Hin. rewrite run_cons in Hin.
@@ -1120,7 +1124,7 @@ Proof.
   assert (HN : NInv s1) by (apply run_NInv; apply init_NInv).
   assert (Hle : c_sn c <= s_last s1).
   { pose proof (si_le s1 HS) as Hl. rewrite Forall_forall in Hl. auto. }
-  pose proof (match_VInv cf s1 HN Hrd Hrp Hdead Hrel) as HV.
+  pose proof (match_VInv cf s1 rel HN Hrd Hrp Hdead Hrel) as HV.
   pose proof (run_VInv (s_last s1) cf after _ HV) as HV2.
   apply VInv_presented in HV2. rewrite Forall_forall in HV2. specialize (HV2 c Hin). unfold above in HV2. lia.
 Qed.
